@@ -329,6 +329,29 @@ theorem sample_spec : Statement_sample_spec := by
     exact List.mem_of_mem_head? hm
   · rw [e]; cases argVals a rows <;> simp
 
+/-- a variable that has the same value (or no value) in every solution of a non-empty group — a GROUP BY key —
+    SAMPLEs to that value.  With `rewrite_correct` (HAVING and ORDER BY variables are always rewritten to
+    SAMPLEs, whether or not the clause contains an aggregate) this is the law for `HAVING (?key …)` and
+    `ORDER BY ?key` on a key that is not selected. -/
+def Statement_sample_of_group_key : Prop :=
+  ∀ (v : Nat) (x : Val) (rows : List Row), rows ≠ [] → (∀ r ∈ rows, r.get v = x) →
+    aggValue ⟨.sample, false, false, .var v, none, 0⟩ rows = x
+
+theorem sample_of_group_key : Statement_sample_of_group_key := by
+  intro v x rows hne h
+  rw [(sample_spec ⟨.sample, false, false, .var v, none, 0⟩ rows rfl).1]
+  cases rows with
+  | nil => exact absurd rfl hne
+  | cons r rs =>
+    have hr : evalE (Expr.var v) r = x := h r List.mem_cons_self
+    cases x with
+    | some t => simp [argVals, List.filterMap_cons, hr]
+    | none =>
+      have : argVals ⟨.sample, false, false, .var v, none, 0⟩ (r :: rs) = [] := by
+        simp only [argVals, List.filterMap_eq_nil_iff]
+        intro a ha; exact h a ha
+      rw [this]; rfl
+
 /-- GROUP_CONCAT: the STR() forms of the (DISTINCT) values joined by the separator (default one space) -/
 def Statement_groupconcat_spec : Prop :=
   ∀ (a : AggSpec) (rows : List Row), a.kind = .gconcat →
@@ -388,7 +411,8 @@ theorem query_stages (q : Query) (input : List Row) (h : q.isAggregate = true) :
     let t := translateAggregates q
     let w := q.nuser + t.A.length
     let grouped := t.aliases.foldl (fun rows al => extend (.var al.1) al.2 rows)
-      (aggregateJoin w q.group t.A (input.map (padRow w)))
+      (aggregateJoin w q.group t.A
+        (q.groupAs.foldl (fun rows ga => extend ga.2 ga.1 rows) (input.map (padRow w))))
     evalQuery q input =
       applySlice q.offset q.limit
         (applyModifier q.modifier
@@ -431,7 +455,7 @@ theorem rewrite_correct : Statement_rewrite_correct := by
 
 /-- non-vacuity: `SELECT ?g (SUM(?v) + 1 AS ?x) … GROUP BY ?g HAVING (COUNT(?v) > 1) ORDER BY DESC(?x) COUNT(?v)` -/
 def exQuery : Query :=
-  { nuser := 3, group := some [0],
+  { nuser := 3, groupAs := [], group := some [0],
     proj := [.var 0, .expr 2 (.add (.agg .sum false false (.var 1) none) (.const (.num .integer 1 0)))],
     having := some (.cmp .gt (.agg .count false false (.var 1) none) (.const (.num .integer 1 0))),
     order := [(.var 2, true), (.agg .count false false (.var 1) none, false)],
